@@ -36,15 +36,52 @@ def run(model, col, tier):
         for m in cls.methods.values():
             selfn = m.args.args[0].arg
             params = [a.arg for a in m.args.args[1:]]
-            fresh = set()
+            # a name is a *value of the activation* (never a program object) if every binding of it in the method is a freshly built
+            # container, a value read out of the value map / argument list / globals map, the result of one of the context's own
+            # value-building methods, or another such name
+            binds = {}
             for n in walk_no_nested(m):
                 if isinstance(n, ast.AnnAssign) and isinstance(n.target, ast.Name) and n.value is not None:
                     n = ast.Assign(targets=[n.target], value=n.value)
-                if isinstance(n, ast.Assign) and isinstance(n.targets[0], ast.Name):
-                    v = n.value
-                    if is_mutable_literal(v) or (isinstance(v, ast.Call) and (dotted(v.func) or "") in ("copy.deepcopy", "copy.copy")) or \
-                            (isinstance(v, ast.BinOp) and isinstance(v.op, (ast.Add, ast.Mult)) and any(isinstance(x, (ast.List, ast.ListComp)) for x in ast.walk(v))):
-                        fresh.add(n.targets[0].id)
+                if isinstance(n, ast.Assign):
+                    for t_ in n.targets:
+                        if isinstance(t_, ast.Name):
+                            binds.setdefault(t_.id, []).append(n.value)
+                elif isinstance(n, (ast.For, ast.comprehension)):
+                    for x in ast.walk(n.target):
+                        if isinstance(x, ast.Name):
+                            binds.setdefault(x.id, []).append(ast.Subscript(value=n.iter, slice=ast.Constant(value=0), ctx=ast.Load()))
+
+            def activation_value(v, seen=()):
+                if is_mutable_literal(v) or isinstance(v, (ast.ListComp, ast.DictComp, ast.Constant)):
+                    return True
+                if isinstance(v, ast.Call):
+                    d = dotted(v.func) or ""
+                    if d in ("copy.deepcopy", "copy.copy", "list", "dict", "zip", "enumerate", "range", "len", "int", "float", "abs", "math.floor"):
+                        return True
+                    if isinstance(v.func, ast.Attribute) and isinstance(v.func.value, ast.Name) and v.func.value.id == selfn:
+                        return True  # self.__CreateInstance(..), self._Invoke(..), self.__CastValue(..): values, not program objects
+                    return False
+                if isinstance(v, ast.BinOp):
+                    return activation_value(v.left, seen) or activation_value(v.right, seen)
+                if isinstance(v, ast.IfExp):
+                    return activation_value(v.body, seen) and activation_value(v.orelse, seen)
+                if isinstance(v, ast.Subscript):
+                    r_ = v
+                    while isinstance(r_, ast.Subscript):
+                        r_ = r_.value
+                    if isinstance(r_, ast.Name):
+                        return r_.id in ("localScope", "args") or r_.id in seen or (r_.id in binds and all(activation_value(b, seen + (r_.id,)) for b in binds[r_.id]))
+                    if isinstance(r_, ast.Attribute):
+                        return "lobalScope" in r_.attr
+                    if isinstance(r_, ast.Call):
+                        return activation_value(r_, seen)
+                    return False
+                if isinstance(v, ast.Name):
+                    return v.id in ("localScope", "args") or v.id in seen or (v.id in binds and all(activation_value(b, seen + (v.id,)) for b in binds[v.id]))
+                return False
+
+            fresh = {nm for nm, vs in binds.items() if all(activation_value(v, (nm,)) for v in vs)}
             for recv, node in mutations_in(m):
                 nmut += 1
                 rn = root_name(recv)
